@@ -162,6 +162,7 @@ def step (d : DS) (line : String) : DS × String :=
       match Hex.toBytes h with
       | some p => finish d (xmppSendRawString c (classifyUser p)) "ok"
       | none => (d, "= bad-op")
+    | ["onconnect", n] => finish d { c with sendOnConnect := n ≠ "0" } "ok"
     | ["althost", _] => finish d c "ok"        -- where to connect to: not what the stream is about
     | ["udisc"] => finish d (xmppDisconnect c) "ok"
     | ["utls"] =>
